@@ -332,6 +332,12 @@ def opSensor (st : St) (op : String) (a : KV) : St × String :=
     let k := match a.str "kind" "file" with | "hwmon" => SensorKind.hwmon | "cmd" => .cmd | _ => .file
     let avg := a.f64 "avg" F64.zero
     ({ st with snKind := k, snAvg := avg, snWin := a.int "win" 10 }, "ok avg=" ++ fmtF avg)
+  | "sn.init" =>
+    -- `initializeSensors`: the moving average starts at the first reading, or at 0 when that read fails
+    let avg := match sensorGetValue .cmd (parseSensorIo .cmd a) with
+      | .ok v => v
+      | _ => F64.ofInt 0
+    (st, "ok avg=" ++ fmtF avg)
   | "sn.monitor" =>
     -- the monitor polls `good` times successfully (one value), then the reads fail for the rest of the run: the average
     -- moves `good` times and stays; the monitor survives and stops when it is told to
